@@ -6,6 +6,7 @@ model function in the same format as `harness rle`.
 Imports only Model/Gen/Spec (core Lean), so it links as a native executable.
 -/
 import Precis.Model.Profiles
+import Precis.Model.Csv
 import Precis.Spec.Verdict
 open Precis Precis.Proto
 
@@ -100,6 +101,19 @@ def stabilizeOp (start table : String) : String :=
   let (r, tr) := stabilizeTrace f stabilizeRounds [0x61 + start.toNat!] []
   fmtRes r ++ ";calls=" ++ ",".intercalate (tr.map fmtStr)
 
+def csvPropName : Csv.Prop7 → String
+  | .pvalid => "PVALID" | .freePval => "FREE_PVAL" | .contextJ => "CONTEXTJ" | .contextO => "CONTEXTO"
+  | .disallowed => "DISALLOWED" | .idDis => "ID_DIS" | .unassigned => "UNASSIGNED"
+
+def fmtCsvRow (r : Csv.Row) : String :=
+  let cps := match r.cps with
+    | .single c => "S:" ++ hex4 c
+    | .range a b => "R:" ++ hex4 a ++ "-" ++ hex4 b
+  let props := match r.props with
+    | .single p => csvPropName p
+    | .tuple p q => csvPropName p ++ "+" ++ csvPropName q
+  "ok:" ++ cps ++ ";" ++ props ++ ";" ++ fmtStr r.desc
+
 def runModel (line : String) : String :=
   let f := (line.splitOn "|").toArray
   let arg (i : Nat) : String := f.getD i ""
@@ -154,6 +168,10 @@ def runModel (line : String) : String :=
      | p, "enforce" => fmtRes ((profByName p).enforce (parseStr (arg 3)))
      | _, _ => "PROTOCOL-ERROR")
   | "forbidden" => "-"
+  | "csvrow" => (match Csv.parseLine (parseStr (arg 1)) with | some r => fmtCsvRow r | none => "err")
+  | "csvfile" =>
+    "[" ++ " / ".intercalate ((Csv.parseFile (parseStr (arg 2))).map (fun it =>
+      match it with | .ok r => fmtCsvRow r | .err l => s!"err@{l}")) ++ "]"
   | "nfc" => fmtStr (nfc (parseStr (arg 1)))
   | "nfkc" => fmtStr (nfkc (parseStr (arg 1)))
   | _ => "PROTOCOL-ERROR"
